@@ -9,7 +9,7 @@ from . import simdata as SD
 from .run import Check, Section
 
 _dir = None
-CONTIGS = ["1", "2", "chr3", "X"]
+CONTIGS = ["1", "2", "chr3", "X", "9", "10", "11", "21"]  # incl. numeric names whose string order and numeric order differ
 
 
 def setup():
@@ -26,12 +26,12 @@ def gen(rng, tier):
     n = 150 if tier == "quick" else 3000
     grid = [10, 20, 30, 40, 50, 60]
     for t in range(n):
-        contigs = rng.sample(CONTIGS, rng.randint(1, 3))
+        contigs = rng.sample(CONTIGS, rng.randint(1, 4))
         recs = []
-        for i in range(rng.randint(1, 7)):
+        for i in range(rng.randint(1, 9)):
             a = rng.choice(grid)
             b = rng.choice([x for x in grid if x >= a])
-            typ = "R" if rng.random() < 0.2 else "H"
+            typ = "R" if rng.random() < 0.3 else "H"
             vs = []
             if typ == "H":
                 for _ in range(rng.choice([0, 1, 1, 2, 3])):
